@@ -1127,11 +1127,12 @@ def generate(rng, tier, scale, **focus):
             continue
         case['obj'] = sanitize(case['obj'])
         try:
-            check_faithful(case)
+            # (that the object built from the case has the steps the case lists is not asserted here: a
+            # glom that builds another object — seeded change C18-s8 — is what the check is for; the
+            # pickle / eval observations are compared with the steps the case lists)
+            build_obj(case['obj'])
             if not within_limits(case):
                 continue
-        except AssertionError:
-            raise
         except Exception:      # e.g. RecursionError while building a deep value
             continue
         yield case
@@ -1261,7 +1262,7 @@ def variants(x):
 
 def buildable(case):
     try:
-        check_faithful(case)
+        build_obj(case['obj'])
         return True
     except Exception:
         return False
